@@ -76,7 +76,8 @@ Definition add_keys (acc : list (N * N * N) * list str) (keys : list str) : opti
   match keys with
   | [] => Some acc
   | _ => let k := join_keys keys in
-         if max_key_length <? N.of_nat (List.length k) then None
+         if (List.length k =? 0)%nat then None                                  (* an empty key is refused *)
+         else if max_key_length <? N.of_nat (List.length k) then None
          else match lookupS (s2l "=") operators_table with
               | Some eqc => Some ((fst acc ++ [(210, eqc, N.of_nat (List.length k))])%list, (snd acc ++ [k])%list)
               | None => None end
